@@ -83,6 +83,14 @@ def cbMany (sb n unreg : Nat) : Option String := do
 
 def step (t : List String) : Option String :=
   match t with
+  | ["dymiss"] =>
+      -- `World.resolve` with export tables: library 1 exports the name, library 2 does not, "library" 0 is the process itself
+      let exports : Nat → String → Bool := fun lib n => n == "vh_only_in_1" ∧ (lib == 1 ∨ lib == 0)
+      let w0 := World.init 64
+      let w1 := ((w0.create 0 true 1).map (·.1)).getD w0
+      let w2 := ((w1.create 1 true 2).map (·.1)).getD w1
+      let ans (i : Nat) : String := match w2.resolve exports i "vh_only_in_1" with | some (_, l) => toString (l * 111) | none => "abort"
+      pure s!"ok {ans 0} {ans 1}"
   | ["dywho"] => pure "ok 101 202"      -- library i answers (helper id)*100 + (own id), both from library i
   | ["cbptr", _sb, v] => do
       -- the callback's pointer result designates the cell it allocated; the guest reads the value stored there
@@ -94,9 +102,11 @@ def step (t : List String) : Option String :=
       | some r => pure r
       | none => pure "abort"
   | cmd :: rest =>
-      if cmd != "tree" ∧ cmd != "treen" ∧ cmd != "treenh" then none else
-      let noop := cmd == "treen" ∨ cmd == "treenh"
-      let hooksOnly := cmd == "treenh"     -- built without RLBOX_MEASURE_TRANSITION_TIMES: same notifications, no timing records
+      if cmd != "tree" ∧ cmd != "treen" ∧ cmd != "treenh" ∧ cmd != "treeni" ∧ cmd != "treeno" then none else
+      let noop := cmd != "tree"
+      let hooksOnly := cmd == "treenh" ∨ cmd == "treeni" ∨ cmd == "treeno"
+      -- a client that defines only one of the two hooks sees exactly the notifications of that hook
+      let inOn := cmd != "treeno"; let outOn := cmd != "treeni"     -- built without RLBOX_MEASURE_TRANSITION_TIMES: same notifications, no timing records
       let w0 := World.init (if noop then 64 else 8)
       let w1 := ((w0.create 0 true 0).map (·.1)).getD w0
       let w2 := ((w1.create 1 true 0).map (·.1)).getD w1
@@ -110,7 +120,7 @@ def step (t : List String) : Option String :=
         let slots : SlotMap := fun sb k => (w.sbx sb).slots k
         -- the per-thread-record machine of the bundled backends (`Tls.lean`); `C12_tls_refines` proves it equal to `runInvs`
         let r := (lrunInvs slots Tls.init invs).1
-        let evs := log ++ r.evs.map showEv ++ (if r.exc then ["x"] else [])
+        let evs := log ++ (hookView inOn outOn r.evs).map showEv ++ (if r.exc then ["x"] else [])
         some (String.intercalate ";" evs ++ (if hooksOnly then " T0=none T1=none" else s!" T0={timings r.evs 0} T1={timings r.evs 1}"))
   | [] => none
 
